@@ -11,6 +11,8 @@ MCInit == Init /\ fuel = [k \in Peers |-> [f |-> Fuel, c |-> ConnFuel, t |-> Tic
 Spend(k, fld) == fuel[k][fld] > 0 /\ fuel' = [fuel EXCEPT ![k][fld] = @ - 1]
 MCStep ==
   \/ \E k \in Peers, inc \in BOOLEAN : Connect(k, inc) /\ Spend(k, "c")
+  \* (refused duplicates change nothing in the repaired design; they are explored for the as-found variant only)
+  \/ \E k \in Peers : Bug("dupAccept") /\ ConnectDup(k) /\ Spend(k, "c")
   \/ \E k \in Peers : FrameStep(k) /\ Spend(k, "f")
   \/ \E k \in Peers : (HTickKA(k) \/ \E ul \in Rates : HTickStats(k, 0, ul)) /\ Spend(k, "t")
   \/ \E k \in Peers : (HStart(k) \/ HBroadHave(k) \/ HBroadState(k) \/ \E n \in Pipeline : HReply(k, n)) /\ UNCHANGED fuel
